@@ -367,7 +367,12 @@ class BufferedFile(ClosingContextManager):
 
         :returns: file position (`number <int>` of bytes).
         """
-        return self._pos
+        # data waiting in the write buffer is part of the position already
+        pending = self._wbuffer.tell()
+        if pending and (self._flags & self.FLAG_APPEND):
+            # ...and it will be appended, wherever a seek has moved us to
+            return self._size + pending
+        return self._pos + pending
 
     def write(self, data):
         """
